@@ -480,6 +480,14 @@ func (e *Engine) callStub(name string, recv Value, args []Value) Value {
 		if !e.branch(tt.Cmp("bvule", lp, ls)) {
 			return tt.Bool(false)
 		}
+		if pb, ok := ropeConcrete(p); ok && len(pb) <= 8 {
+			// short literal prefix: compare byte by byte without restructuring s
+			var conj []*Term
+			for i, b := range pb {
+				conj = append(conj, tt.Eq(e.ropeIndex(s, e.c64(uint64(i))), tt.BVu(uint64(b), 8)))
+			}
+			return tt.And(conj...)
+		}
 		return e.ropeEq(e.ropeSlice(s, e.c64(0), lp), p)
 	case "bytes.Equal":
 		return e.ropeEq(e.bytesRope(args[0].(BytesV)), e.bytesRope(args[1].(BytesV)))
